@@ -1,4 +1,4 @@
-(* L5 at dimensionality 0: the lifecycle machine of rank-0 owning arrays and rank-0 references (C04, C05, C07 at D = 0).
+(* L5 at dimensionality 0: the lifecycle machine of rank-0 owning arrays and rank-0 references (C04, C05, C07, C10 at D = 0).
    Source: /repo/include/boost/multi/array.hpp :731-1143 (static_array<T, 0, Alloc>, array<T, 0, Alloc>: separate class
    specialisations), /repo/include/boost/multi/array_ref.hpp :2549-2680 (const_subarray<T, 0, ...>), :1913-2340 (the generic
    subarray, whose operator= / swap / fill / elements() are also instantiated at D = 0), :3311-3520 (array_ref),
@@ -13,6 +13,9 @@
    num_elements() is numel [] = 1 (layout_t<0>{extensions}: nelems_ = 1), so every such object owns a block of ONE cell.
    There is no "empty" rank-0 array: the move constructor allocates and moves the element (array.hpp:949-958), move assignment
    moves the element (:1073-1077), neither takes the block.
+   Allocators (C10): the configuration's propagate_on_container_{copy_assignment, move_assignment, swap}, is_always_equal and
+   select_on_container_copy_construction are read by ZCtorCopy (patch 16), assign0 (patches 17, 18) and ZSwapMember (patch 19);
+   patches 16-19 are against /repo HEAD 9e89822 (the tree with patches 01-15 committed).
 
    A rank-0 REFERENCE (array_ref<T, 0, P>, subarray<T, 0, P>, a(), the result of element_moved()) designates one element that
    some array object owns: the element of a rank-0 array of the pool (a(), array_ref(a.base(), {})), or element k of a BUFFER
@@ -40,6 +43,32 @@ Definition swap_cells (cfg : config) (b i b' i' : nat) : M unit :=
   tick_elem cfg SAssignElem ;;; w <- read1 cfg b' i' ;; assign1 cfg b i w ;;; mark_moved cfg b' i' ;;;
   tick_elem cfg SAssignElem ;;; assign1 cfg b' i' v.
 
+(* using std::swap; swap(this->alloc(), other.alloc()); swap(this->base_, other.base_): two array objects exchange allocator and
+   block (each block stays with the allocator that produced it); the extents stay *)
+Definition swap_store (r t : nat) : M unit :=
+  ar <- get_arr r ;; at_ <- get_arr t ;;
+  set_arr r (mkarr (a_alloc at_) (a_base at_) (a_exts ar) (a_first ar)) ;;;
+  set_arr t (mkarr (a_alloc ar) (a_base ar) (a_exts at_) (a_first at_)).
+
+(* copy / move assignment of a rank-0 array from another one (array.hpp:1053-1071, :1084-1103 after patches 17, 18).  `prop` is the
+   propagate_on_container_{copy,move}_assignment trait, mk says whether the element is copied or moved from.
+     prop, allocators equal:    this->alloc() = other.alloc(); then the element is assigned;
+     prop, allocators unequal:  static_array tmp(other, other.alloc()) / tmp(std::move(other)): one element in a block of OTHER's
+                                allocator; swap(alloc(), tmp.alloc()); swap(base_, tmp.base_); ~tmp releases the old element and
+                                block through the old allocator.  A rank-0 array never gives its block away: "move" moves the element;
+     not prop:                  the element is assigned, the allocator stays, whatever the two allocators are. *)
+Definition assign0 (cfg : config) (prop : bool) (mk : nat -> nat -> src) (tmp r s : nat) : M unit :=
+  ar <- get_arr r ;; as_ <- get_arr s ;;
+  if prop then
+    if alloc_eq cfg (a_alloc ar) (a_alloc as_) then
+      p_set_alloc r (a_alloc as_) ;;; assign_all cfg ar (cells_of mk as_)
+    else
+      p <- p_build cfg (a_alloc as_) (bnumel X0) 0 (cells_of mk as_) ;;
+      install tmp (a_alloc as_) p X0 ;;;
+      swap_store r tmp ;;;
+      p_dtor cfg tmp
+  else assign_all cfg ar (cells_of mk as_).
+
 Inductive lop0 :=
 (* ---- the environment ---- *)
 | ZBuf (r : nat) (a : Z) (vals : list Z)   (* the storage rank-0 references are bound to: a buffer of length vals elements *)
@@ -49,7 +78,8 @@ Inductive lop0 :=
 | ZCtorElem (r : nat) (a : Z) (v : Z)      (* (extensions, elem, alloc) :815-829; (elem, alloc) :831; (extensions, elem) :881-887 and
                                               (elem) :891 with array_alloc{} *)
 | ZCtorSingleton (r : nat) (v : Z)         (* (Singleton const&) :898-908: a value of a convertible type, default allocator *)
-| ZCtorCopy (r s : nat)                    (* (static_array const&) :943-947; unary plus and the copy-initialisations go here *)
+| ZCtorCopy (r s : nat)                    (* (static_array const&) :943-947, with select_on_container_copy_construction (patch 16);
+                                              unary plus and the copy-initialisations go here *)
 | ZCtorCopyAlloc (r s : nat) (a : Z)       (* (static_array const&, alloc) :937-941 (patch 04) *)
 | ZCtorMove (r s : nat)                    (* (static_array&&) :949-958: allocates, MOVES THE ELEMENT, leaves the source alone *)
 | ZCtorMoveAlloc (r s : nat) (a : Z)       (* (decay_type&&, alloc) :810-813 (patch 13) *)
@@ -58,17 +88,19 @@ Inductive lop0 :=
                                               the element is COPIED (known finding) *)
 | ZCtorConv (r : nat) (a : Z) (v : Z)      (* (static_array<TT, 0, Args...> const&, alloc) :851-861; :864 with allocator_type{} *)
 (* ---- assignment, array.hpp ---- *)
-| ZAssignCopy (r s : nat)                  (* static_array::operator=(static_array const&) :1053-1060 *)
-| ZAssignMove (r s : nat)                  (* static_array::operator=(static_array&&) :1073-1077: adl_move of the element; self test with patch 15 *)
+| ZAssignCopy (r s : nat)                  (* static_array::operator=(static_array const&) :1053-1060; POCCA with patch 17 *)
+| ZAssignMove (r s : nat)                  (* static_array::operator=(static_array&&) :1073-1077: adl_move of the element; self test with patch 15,
+                                              POCMA with patch 18 *)
 | ZAssignElem (r : nat) (v : Z)            (* array::operator=(Other const&) :1130-1133 -> assign(&other) :754-759;
                                               static_array::operator=(Singleton const&) :764-767 *)
 | ZAssignRef (r : nat) (q : ref0)          (* static_array::operator=(const_subarray<TT, 0, Args...> const&) :876-879 (patch 06) *)
 | ZAssignMovedRef (r : nat) (q : ref0)     (* the same operator on q.element_moved(): copies (known finding) *)
 | ZAssignConv (r : nat) (v : Z)            (* array::operator=(array<TT, 0, Args...> const&) :1112-1125; static_array :1085-1089 *)
 (* ---- swap ---- *)
-| ZSwap (r s : nat)                        (* using std::swap; swap(a, b): std::swap<array<T, 0>> = move constructor, two move
-                                              assignments, destructor of the temporary *)
-| ZSwapMember (r s : nat)                  (* a.swap(b) (patch 12): std::swap of the two elements *)
+| ZSwap (r s : nat)                        (* std::swap(a, b), the generic algorithm: move constructor, two move assignments,
+                                              destructor of the temporary (unqualified swap(a, b) is ZSwapMember with patch 19) *)
+| ZSwapMember (r s : nat)                  (* a.swap(b) and, by the friend, swap(a, b) (patches 12, 19): allocators and blocks under
+                                              POCS, std::swap of the two elements otherwise *)
 (* ---- element access ---- *)
 | ZWrite (r : nat) (v : Z)                 (* static_cast<T&>(a) = v (conversion :1002-1004) / *a.base() = v: the caller's own write *)
 | ZMoveOut (r : nat)                       (* T e = std::move(a): conversion :997-999 (patch 07), then the element's move constructor *)
@@ -111,10 +143,10 @@ Definition step0 (cfg : config) (o : lop0) : M unit :=
       p <- p_build cfg default_alloc (bnumel X0) 0 [SVal v] ;;
       install r default_alloc p X0
   | ZCtorCopy r s =>
-      (* array_alloc{other.get_allocator()} (not select_on_container_copy_construction), allocate(other.num_elements(), hint) *)
+      (* array_alloc{select_on_container_copy_construction(other.alloc())}, allocate(other.num_elements(), hint) *)
       slot_free r ;;; as_ <- get_arr s ;;
-      p <- p_build cfg (a_alloc as_) (bnumel X0) 0 (one_cell as_ SCell) ;;
-      install r (a_alloc as_) p X0
+      p <- p_build cfg (socc cfg (a_alloc as_)) (bnumel X0) 0 (one_cell as_ SCell) ;;
+      install r (socc cfg (a_alloc as_)) p X0
   | ZCtorCopyAlloc r s a =>
       slot_free r ;;; as_ <- get_arr s ;;
       p <- p_build cfg a (bnumel X0) 0 (one_cell as_ SCell) ;;
@@ -137,11 +169,10 @@ Definition step0 (cfg : config) (o : lop0) : M unit :=
       install r a p X0
   | ZAssignCopy r s =>
       if (r =? s)%nat then (get_arr r ;;; ret tt)
-      else ar <- get_arr r ;; as_ <- get_arr s ;; assign_all cfg ar (one_cell as_ SCell)
+      else assign0 cfg (c_pocca cfg) SCell TMP1 r s
   | ZAssignMove r s =>
-      ar <- get_arr r ;; as_ <- get_arr s ;;
-      if (r =? s)%nat then ret tt           (* if(this == std::addressof(other)) return *this;  (patch 15) *)
-      else assign_all cfg ar (one_cell as_ SMoveCell)
+      if (r =? s)%nat then (get_arr r ;;; ret tt)     (* if(this == &other) return *this;  (patch 15) *)
+      else assign0 cfg (c_pocma cfg) SMoveCell TMP1 r s
   | ZAssignElem r v | ZAssignConv r v =>
       ar <- get_arr r ;; assign_all cfg ar [SVal v]
   | ZAssignRef r q | ZAssignMovedRef r q =>
@@ -153,13 +184,13 @@ Definition step0 (cfg : config) (o : lop0) : M unit :=
       else
         p <- p_build cfg (a_alloc ar) (bnumel X0) 0 (one_cell ar SMoveCell) ;;     (* T tmp(std::move(a)) *)
         install TMP1 (a_alloc ar) p X0 ;;;
-        assign_all cfg ar (one_cell as_ SMoveCell) ;;;                              (* a = std::move(b) *)
-        at_ <- get_arr TMP1 ;;
-        assign_all cfg as_ (one_cell at_ SMoveCell) ;;;                             (* b = std::move(tmp) *)
+        assign0 cfg (c_pocma cfg) SMoveCell TMP2 r s ;;;                            (* a = std::move(b) *)
+        assign0 cfg (c_pocma cfg) SMoveCell TMP2 s TMP1 ;;;                         (* b = std::move(tmp) *)
         p_dtor cfg TMP1
   | ZSwapMember r s =>
       ar <- get_arr r ;; as_ <- get_arr s ;;
       if (r =? s)%nat then fail EDomain
+      else if c_pocs cfg then swap_store r s
       else b <- base_blk ar ;; b' <- base_blk as_ ;; swap_cells cfg b 0 b' 0
   | ZWrite r v =>
       ar <- get_arr r ;; b <- base_blk ar ;; assign1 cfg b 0 v
